@@ -62,7 +62,18 @@ where
     /// let _inner = writer.finish()?;
     /// # Ok::<(), io::Error>(())
     /// ```
-    pub fn finish(self) -> io::Result<W> {
+    pub fn finish(mut self) -> io::Result<W> {
+        // `GzEncoder::finish` consumes the encoder, so an interrupted write (`ErrorKind::Interrupted`)
+        // would lose the rest of the index. `GzEncoder::try_finish` keeps its progress and can be
+        // resumed, like `Write::write_all` does.
+        loop {
+            match self.inner.try_finish() {
+                Ok(()) => break,
+                Err(e) if e.kind() == io::ErrorKind::Interrupted => {}
+                Err(e) => return Err(e),
+            }
+        }
+
         self.inner.finish()
     }
 
